@@ -119,9 +119,18 @@ def write_suite(spec, path, shipped):
     return path
 
 
+def run_id():
+    """Suites belong to one check invocation (several checks may run at the same time on one machine)."""
+    rid = os.environ.get("VERIF_RUN_ID")
+    if not rid:
+        rid = str(os.getpid())
+        os.environ["VERIF_RUN_ID"] = rid
+    return rid
+
+
 def suite_dir(seed):
     from travsim.run import scratch_root
-    return os.path.join(scratch_root(), f"travsim-suite-{os.getuid()}-{seed}")
+    return os.path.join(scratch_root(), f"travsim-suite-{os.getuid()}-{run_id()}-{seed}")
 
 
 def ensure(seed):
@@ -134,5 +143,5 @@ def cleanup():
     from travsim.run import scratch_root
     root = scratch_root()
     for name in os.listdir(root):
-        if name.startswith(f"travsim-suite-{os.getuid()}-"):
+        if name.startswith(f"travsim-suite-{os.getuid()}-{run_id()}-"):
             shutil.rmtree(os.path.join(root, name), ignore_errors=True)
